@@ -55,6 +55,16 @@ def digest_tree(tree: Any) -> str:
     return h.hexdigest()
 
 
+def flatten_tree(tree: Any) -> list:
+    """Leaves as numpy arrays / Python scalars (for tolerance comparison after a digest mismatch)."""
+    import jax
+
+    out = []
+    for leaf in jax.tree_util.tree_leaves(tree):
+        out.append(np.asarray(leaf) if hasattr(leaf, "dtype") and hasattr(leaf, "shape") else leaf)
+    return out
+
+
 def _array_leaves(module: Any):
     import equinox as eqx
     import jax
@@ -75,6 +85,24 @@ class Op:
     atomic: bool = False  # True: no line-level pre-emption inside (jit tracing; see sim.py)
     cost: int = 1  # rough relative cost, used to balance swarm subsets
     uses_pool: bool = False
+
+
+class Pool:
+    """Objects shared by all simulated callers of a run; built lazily on first use, once per
+    (configuration, precision session)."""
+
+    def __init__(self, builders: dict):
+        self._builders = builders
+        self._objs: dict = {}
+
+    def get(self, group: str):
+        import jax
+
+        key = (group, bool(jax.config.jax_enable_x64))
+        if key not in self._objs:
+            obj = self._builders[group]()
+            self._objs.setdefault(key, obj)  # a concurrent builder may have finished first; keep one
+        return self._objs[key]
 
 
 @dataclass
@@ -266,19 +294,78 @@ def build_catalogue() -> Catalogue:
                     cost=3,
                 )
             )
+        if not big and n == _N[d][0] and not normalized:
+            # the stepper is *constructed* inside the traced function (parameter passed as a traced value)
+            def _jit_construct(pool, name=name, d=d, n=n, kw=kw):
+                cls = _resolve(name)
+
+                def run(scale):
+                    s = cls(d, _L, n, _DT, **kw)  # first thing this op does with the class: build it under the trace
+                    return ex.rollout(s, 2)(_field(s.num_channels, d, n) * scale)
+
+                return eqx.filter_jit(run)(jnp.asarray(1.0))
+
+            cat.add(Op(f"jit-construct:{ck}", _jit_construct, exports + ("exponax.rollout",), ck, atomic=True, cost=4))
+        if not big and n == _N[d][0]:
+            # derivative programs (the API surface C07 is anchored in)
+            cat.add(
+                Op(
+                    f"grad:{ck}",
+                    lambda pool, mk=mk, u0=u0: (
+                        lambda s: jax.grad(lambda u: jnp.sum(s(u) ** 2))(u0(s))
+                    )(mk()),
+                    exports,
+                    ck,
+                    cost=3,
+                )
+            )
+            cat.add(
+                Op(
+                    f"jvp:{ck}",
+                    lambda pool, mk=mk, u0=u0: (
+                        lambda s: jax.jvp(s, (u0(s),), (u0(s, variant=1),))
+                    )(mk()),
+                    exports,
+                    ck,
+                    cost=3,
+                )
+            )
         # one object shared by all caller threads of a run (built once per run)
         if not big and n == _N[d][0]:
             cat.pool_builders[ck] = mk
             cat.add(
                 Op(
                     f"shared-call:{ck}",
-                    lambda pool, ck=ck, u0=u0: pool[ck](u0(pool[ck], variant=2)),
+                    lambda pool, ck=ck, u0=u0: pool.get(ck)(u0(pool.get(ck), variant=2)),
                     exports,
                     ck,
                     uses_pool=True,
                     cost=2,
                 )
             )
+
+    # steppers built under filter_vmap over a constructor parameter (README "parameter sweeps")
+    sweeps = [
+        # stepper.Diffusion is deliberately absent: building it under filter_vmap over `diffusivity`
+        # raises (einsum on a traced scalar) on the unchanged tree -- an input-level observation
+        # about C06 recorded in DESIGN.md §8, not something this audit judges
+        ("stepper.Burgers", "diffusivity", (0.05, 0.1), {}),
+        ("stepper.KuramotoSivashinsky", "second_order_scale", (1.0, 1.2), {}),
+        ("stepper.reaction.FisherKPP", "reactivity", (1.0, 0.5), {}),
+    ]
+    for name, par, values, kw in sweeps:
+        for d in (1, 2):
+            n = _N[d][0]
+            ck = _cfg_key(name, d, n, {"sweep": par})
+
+            def _sweep(pool, name=name, par=par, values=values, kw=kw, d=d, n=n):
+                cls = _resolve(name)
+                steppers = eqx.filter_vmap(lambda v: cls(d, _L, n, _DT, **{par: v}, **kw))(jnp.asarray(values))
+                u = _field(steppers.num_channels, d, n)
+                out = eqx.filter_vmap(lambda s, x: s(x), in_axes=(eqx.if_array(0), None))(steppers, u)
+                return _array_leaves(steppers), out
+
+            cat.add(Op(f"param-vmap:{ck}", _sweep, (f"exponax.{name}",), ck, cost=4))
 
     # deprecated alias (emits a DeprecationWarning through `warnings`, nothing else)
     def _deprecated_alias(pool):
@@ -562,6 +649,13 @@ def build_catalogue() -> Catalogue:
     def _ic_ops(d):
         n = _N[d][0]
         gens = {
+            "DiffusedNoise/intensity=0.01": lambda: ic.DiffusedNoise(d, domain_extent=_L, intensity=0.01, max_one=True),
+            "DiffusedNoise/extent=1": lambda: ic.DiffusedNoise(d, domain_extent=1.0, max_one=True),
+            "GaussianRandomField/exponent=2": lambda: ic.GaussianRandomField(d, domain_extent=_L, powerlaw_exponent=2.0, std_one=True),
+            "RandomTruncatedFourierSeries/cutoff=2": lambda: ic.RandomTruncatedFourierSeries(d, cutoff=2, offset_range=(0.5, 1.5)),
+            "RandomDiscontinuities/n=2": lambda: ic.RandomDiscontinuities(d, domain_extent=_L, num_discontinuities=2, zero_mean=True),
+            "RandomGaussianBlobs/extent=1": lambda: ic.RandomGaussianBlobs(d, domain_extent=1.0, num_blobs=2),
+            "WhiteNoise/std=1": lambda: ic.WhiteNoise(d),
             "WhiteNoise": lambda: ic.WhiteNoise(d, std=0.7),
             "DiffusedNoise": lambda: ic.DiffusedNoise(d, domain_extent=_L, max_one=True),
             "GaussianRandomField": lambda: ic.GaussianRandomField(d, domain_extent=_L, std_one=True),
@@ -586,7 +680,7 @@ def build_catalogue() -> Catalogue:
                     Op(
                         f"ic:{gname}[D={d},N={n},key={seed}]",
                         _draw,
-                        (f"exponax.ic.{gname}",),
+                        (f"exponax.ic.{gname.split('/')[0]}",),
                         f"ic{d}",
                     )
                 )
